@@ -53,7 +53,9 @@ META = {
         "helpers such as create_warning need a guard with a fallback), is a warning-level reporter message, and is created inside the "
         "loop - one message object per refused node (a hoisted message reports N refusals once and, being one node under several "
         "parents, makes docutils' FilterMessages transform raise when report_level > 2). The replacement may be written as "
-        "`parent.insert(i, message)` + `node.parent.remove(node)`. Message placement: a system_message is a body element, so it is put "
+        "`parent.insert(i, message)` + `node.parent.remove(node)` in that order (the insertion point is located through the still "
+        "attached node), and the per-node work may live in a helper the loop calls on every iteration (its entry-to-exit paths are "
+        "judged as the iterations). Message placement: a system_message is a body element, so it is put "
         "beside the outermost TextElement around the raw node (climbing loop `while isinstance(a.parent, TextElement): a = a.parent`), "
         "added to the document, or replaces the node in place only under `not isinstance(node.parent, TextElement)`; an unguarded "
         "in-place replacement puts the message into titles/paragraphs (document title, toc) and is a violation. "
@@ -665,6 +667,11 @@ class Filter:
             # keep analysing the branch that holds the loop so that the other aspects are still judged
             neg = any(not pol for e_, pol in _facts(ifn.test, True, identity=True) if _setting_root(e_, "raw_enabled", fi) is not None)
             branch, edge = (ifn.body, ("T", ifn)) if neg or not ifn.orelse else (ifn.orelse, ("F", ifn))
+            # prefer the side that actually holds a loop over raw nodes (early-return forms: the loop follows the `if`)
+            for cand_edge, cand_branch in ((("T", ifn), ifn.body), (("F", ifn), ifn.orelse)):
+                if any(isinstance(n, ast.For) and n in cfg.succ and cfg.dominates(cand_edge, n) and self._raw_iter(n) is not None for n in fi.local_nodes()):
+                    branch, edge = cand_branch, cand_edge
+                    break
         if ident:
             self.problems.append(("test", f"`{short(ident[0], 60)}` is an identity test: raw_enabled = 0 (a legal 'off' value; docutils' own defaults for the switches are the ints 1/0) is not `False`, so the filter is skipped and every raw node survives", ident[0]))
         elif val is None:
@@ -819,7 +826,7 @@ class Filter:
         return isinstance(t_, ast.Call) and dotted(t_.func) == "isinstance" and len(t_.args) == 2 and isinstance(t_.args[0], ast.Name) and t_.args[0].id == v and _is_raw_class(t_.args[1], self.fi)
 
     @staticmethod
-    def _derived_from(lp: ast.For, v: str) -> set[str]:
+    def _derived_from(lp: ast.AST, v: str) -> set[str]:
         """Locals of the loop body computed from the loop variable (text = node.astext() ...)."""
         out: set[str] = set()
         for _ in range(4):
@@ -839,7 +846,7 @@ class Filter:
         d = dotted(e) if e is not None else None
         return bool(d) and self.fi.module.resolve(d) == "docutils.nodes.TextElement"
 
-    def _placement(self, call: ast.Call, kind: str, v: str, lp: ast.For, cfg) -> None:
+    def _placement(self, call: ast.Call, kind: str, v: str, lp: ast.AST, cfg) -> None:
         """The message must end up beside, not inside, a text element (title, paragraph, ...): inline raw nodes
         (inline HTML, hard break, strikethrough) have a TextElement parent, and a system_message put there becomes
         part of the title/paragraph text (document title, table of contents, astext())."""
@@ -884,16 +891,68 @@ class Filter:
         else:
             raise Unsupported(f"{fi.module.site(call)}: cannot tell which node `{a}` is when the message is inserted")
 
-    def _loop_body(self, lp: ast.For, cfg) -> None:
+    def _delegate(self, lp: ast.For, v: str, cfg) -> bool:
+        """`for node in ...: helper(document, node)`: the loop body hands each raw node to a per-node helper.
+        The helper's body is judged in place of the loop body (its entry-to-exit paths are the iterations)."""
+        if self.corpus is None:
+            return False
         fi = self.fi
-        if not isinstance(lp.target, ast.Name):
-            raise Unsupported(f"{fi.module.site(lp)}: raw loop target is not a simple name")
-        v = lp.target.id
-        for n in walk_local(lp):
-            if isinstance(n, (ast.Break, ast.Return)):
+        g = get_callgraph(self.corpus)
+        for c in calls_in(lp, into_lambdas=False):
+            pos = [i for i, a_ in enumerate(c.args) if isinstance(a_, ast.Name) and a_.id == v]
+            kws = [k_.arg for k_ in c.keywords if isinstance(k_.value, ast.Name) and k_.value.id == v and k_.arg]
+            if not pos and not kws:
+                continue
+            ts = g.resolve_call(c, fi)
+            fts = [t for t in ts if isinstance(t, FunctionInfo) and not t.is_lambda]
+            if len(fts) != 1 or len(ts) != 1:
+                continue
+            h = fts[0]
+            off = 1 if h.cls is not None and h.params and h.params[0] in ("self", "cls") else 0
+            pv = kws[0] if kws else (h.params[pos[0] + off] if pos[0] + off < len(h.params) else None)
+            if pv is None:
+                continue
+            st = cfg.stmt_of(c)
+            if cfg.paths_avoiding(("T", lp), lp, lambda n: n is st):
+                raise Unsupported(f"{fi.module.site(c)}: `{short(c, 50)}` handles the raw node but is not called on every iteration")
+            # which parameter of the helper is the document
+            proot = None
+            for i, a_ in enumerate(c.args):
+                if unparse(_deref(a_, fi)) == self.root and i + off < len(h.params):
+                    proot = h.params[i + off]
+            for k_ in c.keywords:
+                if k_.arg and unparse(_deref(k_.value, fi)) == self.root:
+                    proot = k_.arg
+            if proot is None and self.root == "self.document" and h.cls is not None and fi.cls is not None and h.cls.fq == fi.cls.fq:
+                proot = "self.document"
+            saved = (self.fi, self.root)
+            try:
+                self.fi, self.root = h, (proot or "<document>")
+                self.notes.append((f"each raw node is handled by {h.qualname}()", c))
+                self._loop_body(lp, get_cfg(h), region=h.node, v_name=pv)
+            finally:
+                self.fi, self.root = saved
+            return True
+        return False
+
+    def _loop_body(self, lp: ast.For, cfg, region: ast.AST | None = None, v_name: str | None = None) -> None:
+        """Judge what happens to one raw node: in the body of the loop ``lp`` (paths from the loop-body entry back to
+        the loop header), or - ``region`` given - in the body of a per-node helper the loop delegates to (paths from the
+        helper's entry to its normal exit)."""
+        fi = self.fi
+        reg: ast.AST = region if region is not None else lp
+        start, stop = (("T", lp), lp) if region is None else ("ENTRY", "EXIT")
+        if region is None:
+            if not isinstance(lp.target, ast.Name):
+                raise Unsupported(f"{fi.module.site(lp)}: raw loop target is not a simple name")
+            v = lp.target.id
+        else:
+            v = v_name or ""
+        for n in walk_local(reg):
+            if isinstance(n, ast.Break) or (region is None and isinstance(n, ast.Return)):
                 raise Unsupported(f"{fi.module.site(n)}: break/return inside the raw filter loop")
         muts = []  # (call, kind, replacement expr | None)
-        for c in calls_in(lp, into_lambdas=False):
+        for c in calls_in(reg, into_lambdas=False):
             f = c.func
             if not isinstance(f, ast.Attribute):
                 continue
@@ -905,12 +964,14 @@ class Filter:
                 muts.append((c, "replace", arg_or_kw(c, 0, "new")))
             elif f.attr == "remove" and recv in (f"{v}.parent", f"{v}.parent.children") and (arg_or_kw(c, 0, "item") or arg_or_kw(c, 0, "value")) is not None and unparse(arg_or_kw(c, 0, "item") or arg_or_kw(c, 0, "value")) == v:
                 muts.append((c, "remove", None))
+        if not muts and region is None and self._delegate(lp, v, cfg):
+            return
         if not muts:
-            raise Unsupported(f"{fi.module.site(lp)}: the raw filter loop neither replaces nor removes `{v}` in a recognised form")
+            raise Unsupported(f"{fi.module.site(reg)}: the raw filter loop neither replaces nor removes `{v}` in a recognised form")
         # `parent.insert(i, W)` / `.append(W)` of a message + removal of the node is a replacement written in two steps
         removal_stmts = {id(cfg.stmt_of(c)) for c, _, _ in muts}  # where the raw node actually leaves its parent
         inserts = []
-        for c in calls_in(lp, into_lambdas=False):
+        for c in calls_in(reg, into_lambdas=False):
             f = c.func
             if isinstance(f, ast.Attribute) and f.attr in ("insert", "append") and c.args:
                 wx = c.args[-1] if f.attr == "append" else (c.args[1] if len(c.args) > 1 else None)
@@ -918,17 +979,28 @@ class Filter:
                     inserts.append((c, "insert", wx))
         if inserts and any(kind == "remove" for _, kind, _ in muts):
             ins_stmts = {id(cfg.stmt_of(c)) for c, _, _ in inserts}
-            if cfg.paths_avoiding(("T", lp), lp, lambda n: id(n) in ins_stmts) and not cfg.paths_avoiding(("T", lp), lp, lambda n: id(n) in removal_stmts):
+            if cfg.paths_avoiding(start, stop, lambda n: id(n) in ins_stmts) and not cfg.paths_avoiding(start, stop, lambda n: id(n) in removal_stmts):
                 self.notes.append(("on some iterations the raw node is removed without a message being inserted", inserts[0][0]))
             self.removers = [c for c, kind, _ in muts if kind == "remove"]
+            # order: the insertion point is found through the raw node (`anchor` may be the node itself, and
+            # `anchor.parent.index(anchor)` needs it attached), so the node must still be in the tree when the message goes in
+            for ic, _k, _w in inserts:
+                holder_ = ic.func.value  # type: ignore[union-attr]
+                if isinstance(holder_, ast.Attribute) and holder_.attr == "parent":
+                    ist = cfg.stmt_of(ic)
+                    early = [rc for rc in self.removers if cfg.stmt_of(rc) is not ist and cfg.paths_avoiding(cfg.stmt_of(rc), ist, lambda n: n == stop)]
+                    if early:
+                        self.problems.append(("insert-before-remove", f"`{short(early[0], 40)}` runs before `{short(ic, 50)}`: for a raw node that is not inside a text element the insertion anchor is the node itself, already detached (`parent` is None), so the clean-up raises AttributeError instead of reporting the refusal", early[0]))
+                    else:
+                        self.oks.append(("insert-before-remove", "the message is inserted while the raw node is still attached; the node is removed afterwards", ic))
             muts = [m for m in muts if m[1] != "remove"] + inserts
         else:
             self.removers = [c for c, kind, _ in muts if kind == "remove"]
         stmts = removal_stmts
-        if cfg.paths_avoiding(("T", lp), lp, lambda n: id(n) in stmts):
+        if cfg.paths_avoiding(start, stop, lambda n: id(n) in stmts):
             # some iteration leaves the node in place.  Harmless only when the node is detached (`v.parent is None`)
             # or the test is a tautological type check; any other skip lets an attached raw node survive.
-            all_tests = [n.test for n in walk_local(lp) if isinstance(n, (ast.If, ast.IfExp))]
+            all_tests = [n.test for n in walk_local(reg) if isinstance(n, (ast.If, ast.IfExp))]
             done = False
             # skipped when the replacement is None?
             for _c, kind_, new_ in muts:
@@ -945,7 +1017,7 @@ class Filter:
                     self.oks.append(("every-node", f"each raw node that is attached to a parent is replaced/removed (`{short(all_tests[0], 40)}` only skips detached nodes)", muts[0][0]))
                 elif other:
                     t0 = other[0]
-                    derived = self._derived_from(lp, v)
+                    derived = self._derived_from(reg, v)
                     names = {x.id for x in ast.walk(t0) if isinstance(x, ast.Name)}
                     about = "the node's own content" if (v in names or names & derived) else "something other than the node"
                     self.problems.append(("every-node", f"the loop skips raw nodes depending on `{short(t0, 70)}` ({about}): every raw node it skips stays in the document although raw content is disabled", t0))
@@ -964,7 +1036,7 @@ class Filter:
         # where the message goes: a system_message is a body element and must not become a child of a text element
         for call, kind, new in muts:
             if kind in ("replace", "insert"):
-                self._placement(call, kind, v, lp, cfg)
+                self._placement(call, kind, v, reg, cfg)
         # what replaces it
         any_replace = any(kind in ("replace", "insert") for _, kind, _ in muts)
         for call, kind, new in muts:
@@ -996,12 +1068,12 @@ class Filter:
             # one message object per replaced node: a message created outside the loop is one node under many parents
             reused = None
             if isinstance(new, ast.Name):
-                assigns = {id(cfg.stmt_of(n)) for n in walk_local(lp) if isinstance(n, ast.Assign) and any(isinstance(t, ast.Name) and t.id == new.id for t in n.targets) and not (isinstance(n.value, ast.Constant) and n.value.value is None)}
-                if assigns and cfg.paths_avoiding(("T", lp), st_call, lambda n: id(n) in assigns):
-                    reused = next(n for n in walk_local(lp) if isinstance(n, ast.Assign) and id(cfg.stmt_of(n)) in assigns)
+                assigns = {id(cfg.stmt_of(n)) for n in walk_local(reg) if isinstance(n, ast.Assign) and any(isinstance(t, ast.Name) and t.id == new.id for t in n.targets) and not (isinstance(n.value, ast.Constant) and n.value.value is None)}
+                if assigns and cfg.paths_avoiding(start, st_call, lambda n: id(n) in assigns):
+                    reused = next(n for n in walk_local(reg) if isinstance(n, ast.Assign) and id(cfg.stmt_of(n)) in assigns)
             if reused is not None:
                 self.problems.append(("one-message-per-node", f"`{new.id}` is not assigned on every iteration (`{short(reused, 50)}` is conditional): the message object created for an earlier raw node is used again, so one system_message ends up under several parents and N refusals are reported once; docutils' FilterMessages then raises ValueError when report_level > 2", reused))
-            elif isinstance(w, ast.AST) and hasattr(w, "lineno") and not (lp.lineno <= w.lineno <= lp.end_lineno) and not isinstance(w, (ast.Name, ast.Constant)):
+            elif isinstance(w, ast.AST) and hasattr(w, "lineno") and not (reg.lineno <= w.lineno <= reg.end_lineno) and not isinstance(w, (ast.Name, ast.Constant)):
                 self.problems.append(("one-message-per-node", f"the replacement `{short(w, 60)}` is created once, outside the loop, and the same system_message object is put in place of every raw node: N refusals are reported by one warning, and a node that sits under several parents breaks docutils' message filtering (ValueError from FilterMessages when report_level > 2), aborting instead of processing the rest normally", w))
             else:
                 self.oks.append(("one-message-per-node", "the replacement is created inside the loop, once per raw node", call))
@@ -1197,12 +1269,13 @@ def r1_filter_postdominates(corpus: Corpus, rep: Report, tier: str):
         rep.saw_function(where.fq)
         # the document filtered must be the one rendered into
         _check_same_document(rep, fe, flt)
+        site_of = lambda n_: getattr(n_, "_mod", where.module).site(n_)  # noqa: E731
         for aspect, msg, node in flt.oks:
-            rep.ok("C20.R1", f"{where.fq}|raw filter|{aspect}", where.module.site(node), msg)
+            rep.ok("C20.R1", f"{where.fq}|raw filter|{aspect}", site_of(node), msg)
         for aspect, msg, node in flt.problems:
-            rep.violation("C20.R1", f"{where.fq}|raw filter|{aspect}", where.module.site(node), msg)
+            rep.violation("C20.R1", f"{where.fq}|raw filter|{aspect}", site_of(node), msg)
         for msg, node in flt.notes:
-            rep.listed("C20.R1", f"{where.fq}|raw filter|note|{short(node, 40)}", where.module.site(node), msg)
+            rep.listed("C20.R1", f"{where.fq}|raw filter|note|{short(node, 40)}", site_of(node), msg)
     corpus._cache["c20-filters"] = list(analysed.values())
     rep.expect_min("C20.R1", 2, "front-end entries (docutils and Sphinx parsers)")
 
@@ -2398,6 +2471,10 @@ def mutants(corpus: Corpus):
                 out.append(Mutant("c20-filter-message-replaces-inline-node-in-place", "C20.R1", dm.rel, srcp, expect="message-placement", canary=True))
             elif fp["replace"] is not None:
                 out.append(Mutant("c20-filter-silent-removal", "C20.R1", dm.rel, splice(dm.src, fp["replace"], f"{vn_}.parent.remove({vn_})"), expect="raw filter|reported"))
+            if fp["ins"] is not None and fp["rm"] is not None and fp["ins"].lineno < fp["rm"].lineno:
+                srco = splice(dm.src, fp["rm"], segment(dm.src, fp["ins"]))
+                srco = splice(srco, fp["ins"], segment(dm.src, fp["rm"]))
+                out.append(Mutant("c20-filter-node-removed-before-message-inserted", "C20.R1", dm.rel, srco, expect="insert-before-remove"))
             if fp["climb"] is not None:
                 out.append(Mutant("c20-filter-message-beside-node-without-climbing", "C20.R1", dm.rel, splice(dm.src, fp["climb"], "pass"), expect="message-placement"))
             # revert of d017ced: only the tree is swept, not the registered footnotes
